@@ -9,6 +9,16 @@ ALL = ["C%02d" % i for i in range(1, 21)]
 TECH = "contract-based deductive verification: sidecar contracts on the real functions, VCs generated from /repo's ast by pyvc, discharged by z3/cvc5"
 
 CHECKS = {
+    "C17": dict(
+        category="translation_validation", design_ref="DESIGN.md section 8 (C17)",
+        text=("Per generated program: on every run the real MethodBuilder is executed for a corpus of spec classes and each distinct wrapper text it hands to "
+              "exec is symbolically executed and proved, for all argument values, to reject a keyword outside its virtual keywords with TypeError before "
+              "anything is called, and otherwise to call the implementation exactly once with every parameter forwarded under its own name, the remaining "
+              "keywords unchanged, returning its result; validate_attrs is proved against its body for every keyword set (z3); the advertised signature "
+              "is compared statically with the def line, the virtual keywords and the implementation's signature."),
+        note=("The corpus of generated programs is bounded (76 generated methods of three classes, every helper kind); each program is validated for all "
+              "inputs. The string assembly inside MethodBuilder is not verified - its output is. One open known finding: advertised defaults of virtual "
+              "keywords are not the behaviour of omitting them.")),
     "C16": dict(
         category="proof", design_ref="DESIGN.md section 8 (C16)",
         text=("spec_class.register_method - the single gate through which generated helpers reach the decorated class - is symbolically executed from the "
